@@ -4,6 +4,7 @@
 -/
 import M4riProofs.W.Observers
 import M4riProofs.W.RowCol
+import M4riProofs.GenTieMem
 namespace M4ri.Props.C17
 open M4ri M4ri.Mzd
 
@@ -55,5 +56,18 @@ theorem write_bit_frame (M : Mzd) (r c : Nat) (v : Bool) (h : M.WF) (hr : r < M.
   writeBit_bit M r c v h hr hc i j
 
 example : 0 < exM.ncols := by decide
+
+
+/-! ### tie to the C text (word-level kernels on the memory model): the functions `Gen.C.mzd…` are GENERATED from
+    /repo/m4ri by vlib/ctrans.py (clang AST) on every check; a matrix is its memory image `memOf M : row → word → BitVec 64`.
+    Each theorem: the generated C function run on the image of a well-formed model matrix = the image of the model
+    function's result (hence also: no cell outside the addressed words changes) -/
+#check @M4ri.GenTieMem.mzdIsZero_eq
+#check @M4ri.GenTieMem.mzdEqual_eq
+#check @M4ri.GenTieMem.mzdEqual_eq_same
+#check @M4ri.GenTieMem.mzdCmp_eq
+#check @M4ri.GenTieMem.mzdFirstZeroRow_eq
+#check @M4ri.GenTieMem.mzdReadBit_eq
+#check @M4ri.GenTieMem.mzdReadBits_eq
 
 end M4ri.Props.C17
